@@ -27,6 +27,13 @@ func newSemBox(n int) *semBox {
 	return b
 }
 
+func semName(d int) string {
+	if d < 4 {
+		return []string{"X", "Y", "Z", "M"}[d]
+	}
+	return fmt.Sprintf("no. %d", d+1)
+}
+
 // semIndex maps ordinate position i of layout l to a semantic dimension.
 func semIndex(l geom.Layout, i int) int {
 	switch {
@@ -101,7 +108,7 @@ func c08Compare(c *fw.Ctx, how string, b *geom.Bounds, wantLayout geom.Layout, s
 	for i := 0; i < wantLayout.Stride(); i++ {
 		d := semIndex(wantLayout, i)
 		if b.Min(i) != sb.min[d] || b.Max(i) != sb.max[d] {
-			c.Fail("wrong-bounds", "%s: dimension %d (semantic %s) is [%v, %v], exact min/max over the coordinates is [%v, %v]", how, i, []string{"X", "Y", "Z", "M", "5th", "6th", "7th", "8th"}[d], b.Min(i), b.Max(i), sb.min[d], sb.max[d])
+			c.Fail("wrong-bounds", "%s: dimension %d (semantic %s) is [%v, %v], exact min/max over the coordinates is [%v, %v]", how, i, semName(d), b.Min(i), b.Max(i), sb.min[d], sb.max[d])
 			return false
 		}
 	}
@@ -133,13 +140,13 @@ func c08Geoms(c *fw.Ctx, idx int) {
 		}, 0)
 	} else {
 		kind := gen.Kinds7[r.Intn(len(gen.Kinds7))]
-		layout := c01Layouts[r.Intn(len(c01Layouts))]
+		layout := gen.PickLayout(r, c01Layouts)
 		g = gen.Shape(r, kind, layout, gen.SmallInt, gen.ShapeOpts{CoordFn: c08NoNaN, Big: true})
 	}
 	c.SetInput(map[string]any{"geometry": g.String()})
 	t := g.BuildFlat()
 	layout := g.CollectionLayout()
-	sb := newSemBox(8)
+	sb := newSemBox(104)
 	sb.addModel(g)
 	depth := 0
 	var dep func(m *model.G, d int)
@@ -244,7 +251,7 @@ func c08Extend(c *fw.Ctx, idx int) {
 	gs := make([]*model.G, n)
 	var desc []string
 	want := start
-	sb := newSemBox(8)
+	sb := newSemBox(104)
 	anyc := false
 	for i := range gs {
 		l := gen.StdLayouts[r.Intn(4)]
